@@ -1,5 +1,6 @@
 import Minimq.Theorems.C09
 import Minimq.Theorems.C11
+import Minimq.Proofs.Framed
 /-
 C01 — the outbound byte stream is always whole, well-formed MQTT 5 packets.
 
@@ -47,6 +48,22 @@ theorem C01_control_wellformed (typ flags id rc cap off : Nat) (pkt : Bytes)
 theorem C01_pingreq_wellformed (cap off : Nat) (pkt : Bytes)
     (he : encodeWithOffset cap [] MT_PingReq FLAGS_PingReq = .ok (off, pkt)) : WellFormedPacket pkt :=
   fun rest => ⟨_, pingreq_roundtrip cap off pkt rest he⟩
+
+/-- **Everything kept for (re)transmission is a whole packet.** In every reachable state, every
+packet in the transmit arena — what `perform_outbound_step` writes for a retained entry, on first
+transmission and on every replay — is one complete framed packet: header byte, canonical remaining
+length, exactly that many bytes (the DUP bit set by replay does not change that). -/
+theorem C01_arena_holds_whole_packets (cfg : Cfg) (ds : List Directive) :
+    ∀ bs ∈ (ds.foldl World.execDirective { sess := Session.new cfg }).sess.data.outbound.contents, Framed bs :=
+  (run_inv closed_FramedP ds { sess := Session.new cfg }
+    ⟨⟨ArenaInv_new cfg.tx, ⟨by simp [Session.new, Outbound.new], by simp [Session.new, Outbound.new]⟩⟩,
+     by intro bs hbs; simp [Session.new, Outbound.new, Outbound.contents, contents] at hbs⟩).2
+
+/-- The owed acknowledgements, PINGREQ and PUBREL are encoded afresh each time they are written, and
+what the encoder returns is a whole framed packet inside its 9-byte buffer. -/
+theorem C01_control_packets_framed :
+    (∀ cs typ flags, EncOk (fun cap _ => encodeWithOffset cap cs typ flags)) :=
+  EncOk_encodeWithOffset
 
 /-- The state of the entry a step refers to. -/
 def Outbound.Step.state : Outbound.Step → SendState
